@@ -27,5 +27,6 @@ package unpackinfo
 
 //@ func (UnpackInfo).RestoreInfo -> (err)
 //@   pure
+//@   sweep
 //@   fswrite i.Path
 //@   frame C01.frame: _p == i.Path
